@@ -655,6 +655,9 @@ class parser(object):
                 ret = self._build_tzaware(ret, res, tzinfos)
             except ValueError as e:
                 six.raise_from(ParserError(str(e) + ": %s", timestr), e)
+        else:
+            # A naive datetime is returned, also for an aware ``default``
+            ret = ret.replace(tzinfo=None)
 
         if kwargs.get('fuzzy_with_tokens', False):
             return ret, skipped_tokens
@@ -1219,7 +1222,7 @@ class parser(object):
                           "version, this will raise an "
                           "exception.".format(tzname=res.tzname),
                           category=UnknownTimezoneWarning)
-            aware = naive
+            aware = naive.replace(tzinfo=None)
 
         return aware
 
